@@ -355,6 +355,25 @@ func init() {
 		e.callFn(fr, a[0], nil, nil)
 		return Bool(false)
 	})
+	// Terminates(budget, f): run f with a budget of SSA instructions; false when the budget runs out (the loop
+	// it is stuck in has concrete conditions - a symbolic one is cut by the unwinding bound instead)
+	R("Terminates", func(e *Engine, fr *frame, a []Value) (res Value) {
+		saved := e.stepLimit
+		e.stepLimit = e.Instrs + a[0].(Term).Int()
+		depth := e.depth
+		defer func() {
+			e.stepLimit = saved
+			if r := recover(); r != nil {
+				if _, ok := r.(stepAbort); !ok {
+					panic(r)
+				}
+				e.depth = depth
+				res = Bool(false)
+			}
+		}()
+		e.callFn(fr, a[1], nil, nil)
+		return Bool(true)
+	})
 	R("ErrText", func(e *Engine, fr *frame, a []Value) Value {
 		i, ok := a[0].(Iface)
 		if !ok || i.T == nil {
